@@ -45,6 +45,12 @@ type Exec struct {
 	// ContentEvery: read the content of every message of every mailbox each N-th step (the
 	// mailbox an operation names is always read completely).  0 means every step.
 	ContentEvery int
+	// DeclareShort: a third of the deliveries declare (Message.Size()) fewer bytes than their
+	// reader yields, the way StoreManager.Deliver does (its declared size leaves out the trace
+	// headers it prepends).  What a store reports and accounts is what it stored.
+	DeclareShort bool
+	// QuietReopen: a third of the reopens are not followed by an immediate read of everything.
+	QuietReopen bool
 
 	Step   int
 	Trace  []string
@@ -524,6 +530,13 @@ func (e *Exec) Apply(op *Op) (obs string) {
 			e.count("reopens_nonempty")
 		}
 		e.Counts["messages_across_reopen"] += int64(e.M.Count())
+		if e.QuietReopen && (e.Step+int(e.Counts["reopens"]))%3 == 0 {
+			// nothing is read through the new store object before the next operation of the
+			// history (added after seeded change C10-9: the first thing a restarted server does
+			// may be to accept mail); that operation's own verification then reads everything
+			e.count("reopens_without_immediate_read")
+			return "reopen"
+		}
 		if e.VerifyAll("after-reopen", "", true) {
 			e.Visit(0, true)
 		}
@@ -548,7 +561,16 @@ func (e *Exec) add(op *Op) string {
 		a := sp.To[i]
 		to[i] = &a
 	}
-	id, err := e.Store.AddMessage(sut.NewDelivery(op.Box, &from, to, sp.Subject, sp.Date, sp.Body))
+	dl := sut.NewDelivery(op.Box, &from, to, sp.Subject, sp.Date, sp.Body)
+	if e.DeclareShort && (len(sp.Body)+e.Step)%3 == 0 && len(sp.Body) > 1 {
+		short := 100 + len(sp.Body)%80
+		if short > len(sp.Body)/2 {
+			short = len(sp.Body) / 2
+		}
+		dl.Meta.Size = int64(len(sp.Body) - short)
+		e.count("adds_declaring_fewer_bytes_than_sent")
+	}
+	id, err := e.Store.AddMessage(dl)
 	if e.M.Limit > 0 && int64(len(sp.Body)) > e.M.Limit {
 		// A message larger than the whole size limit can never be retained: the store must
 		// refuse it and stay exactly as it was (the state comparison after this operation
@@ -704,6 +726,12 @@ func (e *Exec) Visit(stop int, withSource bool) string {
 	e.Counts["visit_callbacks_after_stop"] += int64(afterStop)
 	if err != nil {
 		e.fail("visit:error", fmt.Sprintf("VisitMailboxes failed: %v", err))
+		return ""
+	}
+	if afterStop > 0 {
+		// The visitor's false means stop (storage.Store: "cont bool"; the retention scanner's only
+		// way to abandon a scan).  Judged since seeded change C07-10; before it was only counted.
+		e.fail("visit:callback-after-stop", fmt.Sprintf("VisitMailboxes called the visitor %d more time(s) after it had returned false at mailbox %d", afterStop, calls))
 		return ""
 	}
 	for _, r := range reps {
